@@ -248,6 +248,9 @@ func TestC04(t *testing.T) {
 		r.Case("addev|"+pairList(cur), steps > 1)
 	}
 
+	// ---------- evidence with real proof content: "byte-identical evidence" (c04_enc_test.go) ----------
+	c04EvidenceBytes(t, r, cdc)
+
 	// ---------- whole histories on the real keepers against the C04 history model ----------
 	c04KeeperHistories(t, r)
 }
